@@ -216,7 +216,7 @@ func R18() Rule {
 				}
 			}
 		}
-		if nErr < 10 {
+		if nErr < 5 {
 			c.Unknown("R18", "floor/error-sites", token.NoPos, "only %d error returns found in the filter evaluator", nErr)
 		}
 		// (c) validation presence
